@@ -55,6 +55,10 @@ where
 
     // Batch size for draining commit notifications
     max_batch_size: usize,
+
+    // Highest index already handed to the SM worker. The worker applies asynchronously, so
+    // `last_applied` may lag behind what has been dispatched.
+    last_dispatched: std::sync::atomic::AtomicU64,
 }
 
 #[async_trait]
@@ -134,6 +138,7 @@ where
             sm_apply_tx: deps.sm_apply_tx,
             shutdown_signal: deps.shutdown_signal,
             max_batch_size: deps.max_batch_size,
+            last_dispatched: std::sync::atomic::AtomicU64::new(0),
         }
     }
 
@@ -153,7 +158,19 @@ where
         let Some(range) = pending_range else {
             return Ok(());
         };
+        // Skip what an earlier batch already sent to the SM worker but the worker has not
+        // applied yet; otherwise the same entries would be applied twice.
+        let dispatched = self.last_dispatched.load(std::sync::atomic::Ordering::Acquire);
+        let start = (*range.start()).max(dispatched.saturating_add(1));
+        if start > *range.end() {
+            return Ok(());
+        }
+        let range = start..=*range.end();
         let entries = self.raft_log.get_entries_range(range)?;
+        if let Some(last) = entries.last() {
+            self.last_dispatched
+                .fetch_max(last.index, std::sync::atomic::Ordering::AcqRel);
+        }
 
         debug!(
             "[Node-{}] commit handler process batch, length = {}",
